@@ -599,6 +599,11 @@ func c14Definedness(p *wgen.OvProg, vals map[string]float64) (status int, why st
 			status, why, env = ovSkip, fmt.Sprintf("definedness evaluator: %v", r), v.env
 		}
 	}()
+	for _, c := range p.Mod.Consts { // named module constants (literal-valued in these programs)
+		if v.pure(c.Init) {
+			v.env[c.Name] = v.eval(c.Init)
+		}
+	}
 	for i := range p.Ovs {
 		d := &p.Ovs[i]
 		if x, ok := vals[d.Name]; ok {
@@ -928,7 +933,11 @@ func c14History(r *explore.Run, p *wgen.OvProg, depth int) {
 					if len(seq) > 0 {
 						prev = opKind(ops[seq[len(seq)-1]].name)
 					}
-					r.Violate(explore.Violation{Key: "C14|hist|" + prev + ">" + opKind(op.name) + "|" + p.Class + "|result-depends-on-history",
+					cls := p.Class
+					if p.Part == "cf" { // position/mode; the tree is in the detail
+						cls = strings.Join(strings.Split(cls, "/")[:2], "/")
+					}
+					r.Violate(explore.Violation{Key: "C14|hist|" + prev + ">" + opKind(op.name) + "|" + cls + "|result-depends-on-history",
 						Detail: fmt.Sprintf("%s: [%s] gives a different result for its last operation than a freshly lowered module does", p.Sig, strings.Join(names, " ; ")), Replay: rp})
 				}
 				if !seen[after] {
@@ -1160,4 +1169,43 @@ func c14HistoryPrograms(thorough bool) []*wgen.OvProg {
 		pick(p)
 	}
 	return out
+}
+
+// ---------------------------------------------------------------- replay
+
+func init() {
+	perProgram["C14"] = func(r *explore.Run, p *prog) {
+		// locate the program by signature in the (thorough, i.e. superset) enumeration
+		var fams [][]*wgen.OvProg
+		switch {
+		case strings.HasPrefix(p.Sig, "F6o-spell/"):
+			fams = append(fams, wgen.F6oSpell())
+		case strings.HasPrefix(p.Sig, "F6o-comp/"):
+			fams = append(fams, wgen.F6oComp())
+		case strings.HasPrefix(p.Sig, "F6o-shape/"):
+			fams = append(fams, wgen.F6oShapes(true))
+		case strings.HasPrefix(p.Sig, "F6o-ops/"):
+			fams = append(fams, wgen.F6oOps(true))
+		case strings.HasPrefix(p.Sig, "F6o-chain/"):
+			fams = append(fams, wgen.F6oChains(true))
+		case strings.HasPrefix(p.Sig, "F6o-cf/"):
+			fams = append(fams, wgen.F6oCf(2, 3, []string{"entry", "callee", "calleeval"}, []string{"direct", "folded", "let"}, 5))
+		case strings.HasPrefix(p.Sig, "F6o-inj/"):
+			fams = append(fams, wgen.F6oInj([]string{"buf", "let", "var", "fn", "asg"}, true))
+		}
+		for _, f := range fams {
+			for _, q := range f {
+				if q.Sig == p.Sig {
+					c14xProgram(r, c14xRoutes(), q)
+					for _, h := range c14HistoryPrograms(true) {
+						if h.Sig == p.Sig {
+							c14History(r, h, 3)
+						}
+					}
+					return
+				}
+			}
+		}
+		fmt.Println("replay: no C14 program with signature", p.Sig, "(the replay object holds the full case)")
+	}
 }
